@@ -23,7 +23,7 @@ Ev == Trace[l]
 Allowed(a, b) ==
   \/ a = "IDLE" /\ b \in {"CONNECTING", "SHUTDOWN"}
   \/ a = "CONNECTING" /\ b \in {"READY", "TRANSIENT_FAILURE", "IDLE", "SHUTDOWN"}
-  \/ a = "READY" /\ b \in {"IDLE", "SHUTDOWN"}
+  \/ a = "READY" /\ b \in {"IDLE", "CONNECTING", "SHUTDOWN"}   \* -> CONNECTING: UpdateAddresses dropping the connected address (R2)
   \/ a = "TRANSIENT_FAILURE" /\ b \in {"IDLE", "SHUTDOWN"}
 
 \* least connection backoff (ms) after the k-th consecutive failed attempt: Backoff(k-1) of
@@ -87,10 +87,15 @@ Must == /\ Ev.ev = "must"
         /\ Mark(~closedCh /\ ~closing /\ prev[Ev.sc] # Ev.s, "I_Delivered", l)
         /\ UNCHANGED <<prev, prevT, fails, shut, cands, closing, closedCh, gopen, gset, wopen, wsrc>>
 
+\* an expectation from documented intent that the property text does not state: drift only
+Soft == /\ Ev.ev = "soft"
+        /\ Drift(~closedCh /\ prev[Ev.sc] # Ev.s, Ev.what, l)
+        /\ UNCHANGED <<prev, prevT, fails, shut, cands, closing, closedCh, gopen, gset, wopen, wsrc>>
+
 Other == /\ Ev.ev \in {"step", "panic", "dial"}
          /\ UNCHANGED <<prev, prevT, fails, shut, cands, closing, closedCh, gopen, gset, wopen, wsrc>>
 
 Next == /\ l <= TLen /\ l' = l + 1 /\ Consumed(l)
         /\ (Reset \/ ScState \/ PubBegin \/ PubEnd \/ CloseBegin \/ CloseEnd \/ GetBegin \/ GetEnd
-            \/ WaitBegin \/ WaitEnd \/ Quiescent \/ Must \/ Other)
+            \/ WaitBegin \/ WaitEnd \/ Quiescent \/ Must \/ Soft \/ Other)
 ====
